@@ -108,6 +108,7 @@ type vrun struct {
 	rot     int
 	firstMem uint32
 	plainUsed bool
+	valSeq    map[string]uint64 // written value bytes -> ghost number of a write carrying them
 	reopened  bool
 }
 
@@ -216,8 +217,23 @@ type wEnt struct {
 
 func (e wEnt) ikey() []byte { return kv.InternalKey(e.cf, e.user, e.ver) }
 
+// vref prints observed value bytes: by reference to a write when they equal a written value.
+func (r *vrun) vref(v []byte) string {
+	if len(v) >= 8 {
+		if n, ok := r.valSeq[string(v)]; ok {
+			return fmt.Sprintf("(VS %d)", n)
+		}
+	}
+	return "(VH " + corr.Hex(v) + ")"
+}
+
 func (r *vrun) recTerm(e wEnt) string {
 	r.seq++
+	if len(e.val) >= 8 {
+		if _, ok := r.valSeq[string(e.val)]; !ok {
+			r.valSeq[string(e.val)] = r.seq
+		}
+	}
 	return fmt.Sprintf("W %s %d %s %d %d %d", corr.Hex(baseKey(e.cf, e.user)), e.ver, corr.Hex(e.val), e.meta, e.exp, r.seq)
 }
 
@@ -284,6 +300,17 @@ func (r *vrun) mkVal(size int) []byte {
 	return v
 }
 
+// sanitize keeps a message safe inside a Coq comment (no quotes, no comment brackets).
+func sanitize(msg string) string {
+	return strings.Map(func(c rune) rune {
+		switch {
+		case c >= 'a' && c <= 'z', c >= 'A' && c <= 'Z', c >= '0' && c <= '9', c == ' ', c == ':', c == '.', c == '_', c == '-':
+			return c
+		}
+		return '_'
+	}, msg)
+}
+
 func unhexKey(s string) []byte {
 	b, err := hex.DecodeString(s)
 	if err != nil {
@@ -294,10 +321,10 @@ func unhexKey(s string) []byte {
 
 // ---- reads ----
 
-func obsOf(e *kv.Entry, err error) string {
+func (r *vrun) obsOf(e *kv.Entry, err error) string {
 	switch {
 	case err == nil && e != nil:
-		return fmt.Sprintf("(RV %s %d)", corr.Hex(e.Value), e.Meta)
+		return fmt.Sprintf("(RV %s %d)", r.vref(e.Value), e.Meta)
 	case errors.Is(err, utils.ErrKeyNotFound):
 		return "RN"
 	default:
@@ -305,7 +332,7 @@ func obsOf(e *kv.Entry, err error) string {
 		if err != nil {
 			msg = err.Error()
 		}
-		return fmt.Sprintf("RE (* %s *)", strings.ReplaceAll(msg, "*)", "* )"))
+		return fmt.Sprintf("RE (* %s *)", sanitize(msg))
 	}
 }
 
@@ -318,7 +345,7 @@ func (r *vrun) iterate() string {
 		if bytes.HasPrefix(e.Key, []byte("!NoKV!")) {
 			continue
 		}
-		items = append(items, fmt.Sprintf("(%s, %d, %s, %d)", corr.Hex(baseKey(e.CF, e.Key)), e.Version, corr.Hex(e.Value), e.Meta))
+		items = append(items, fmt.Sprintf("(%s, %d, %s, %d)", corr.Hex(baseKey(e.CF, e.Key)), e.Version, r.vref(e.Value), e.Meta))
 	}
 	return corr.List(items)
 }
@@ -329,9 +356,6 @@ func (r *vrun) readAll() {
 		vers := map[uint64]bool{math.MaxUint64: true}
 		for v := range r.touched[s] {
 			vers[v] = true
-			if v > 1 {
-				vers[v-1] = true
-			}
 		}
 		var vs []uint64
 		for v := range vers {
@@ -340,11 +364,11 @@ func (r *vrun) readAll() {
 		sort.Slice(vs, func(i, j int) bool { return vs[i] < vs[j] })
 		for _, v := range vs {
 			e, err := r.db.GetVersionedEntry(cf, user, v)
-			o := obsOf(e, err)
+			o := r.obsOf(e, err)
 			r.emit(fmt.Sprintf("G %s %d %s", corr.Hex([]byte(s)), v, o), fmt.Sprintf("getv cf=%d key=%q ver=%d -> %s", cf, user, v, o))
 		}
 		e, err := r.db.GetCF(cf, user)
-		o := obsOf(e, err)
+		o := r.obsOf(e, err)
 		r.emit(fmt.Sprintf("GP %s %s", corr.Hex([]byte(s)), o), fmt.Sprintf("get cf=%d key=%q -> %s", cf, user, o))
 		// after a reopen the plain API's max-version sentinel has wrapped the oracle's next timestamp (the two APIs are not to be mixed)
 		if cf == kv.CFDefault && !(r.plainUsed && r.reopened) {
@@ -355,7 +379,7 @@ func (r *vrun) readAll() {
 			if item != nil {
 				te = item.Entry()
 			}
-			o := obsOf(te, err)
+			o := r.obsOf(te, err)
 			txn.Discard()
 			r.emit(fmt.Sprintf("GT %s %d %s", corr.Hex([]byte(s)), ts, o), fmt.Sprintf("txn.get key=%q readTs=%d -> %s", user, ts, o))
 		}
@@ -453,7 +477,7 @@ func (r *vrun) compactOnce(level, mode, base int) bool {
 		if errors.Is(err, utils.ErrFillTables) {
 			return false
 		}
-		r.emit(fmt.Sprintf("XLayout [] [] [] (* compaction error: %s *)", strings.ReplaceAll(err.Error(), "*)", "* )")), "compaction error")
+		r.emit(fmt.Sprintf("XLayout [] [] [] (* compaction error: %s *)", sanitize(err.Error())), "compaction error")
 		return false
 	}
 	after := r.layout()
@@ -783,7 +807,7 @@ func newRun(c *corr.Ctx, cfg vcfg) *vrun {
 	if err != nil {
 		panic(err)
 	}
-	r := &vrun{dir: dir, cfg: cfg, c: c, touched: map[string]map[uint64]bool{}, prev: map[string]bool{}, now: uint64(time.Now().Unix())}
+	r := &vrun{dir: dir, cfg: cfg, c: c, touched: map[string]map[uint64]bool{}, prev: map[string]bool{}, valSeq: map[string]uint64{}, now: uint64(time.Now().Unix())}
 	flushGate.setOpen(false)
 	r.open()
 	r.firstMem = r.layout().Active.SegmentID
